@@ -309,6 +309,26 @@ def check(pid, tier, seed, replay=None):
         else:
             cmd += ["--gen", gen_file, "--witnesses", wit_file]
         p = subprocess.run(cmd, stdout=subprocess.PIPE, stderr=subprocess.STDOUT, timeout=P.get("harness_timeout", 1800))
+        hang_file = os.path.join(out, "hang.json")
+        if p.returncode == 77 and os.path.exists(hang_file):
+            # the recorder's watchdog ended the run: a library call of one case did not return (or its memory ran
+            # away).  There is no event a trace specification could judge - the verdict is issued here.
+            with open(hang_file) as f:
+                h = json.load(f)
+            v = {"case": 0, "codes": ["library_call_did_not_return"],
+                 "detail": {"why": h.get("why"), "elapsed_s": h.get("elapsed_s"), "rss_mb": h.get("rss_mb"), "features": fs or "default"}}
+            for e in open_known:
+                if match_known(e, h.get("desc"), v["codes"], v["detail"]):
+                    log("KNOWN-FINDING: property=%s %s: %s" % (pid, e["id"], e["what"]))
+                    raise ToolError("the run was cut short by the known finding %s (a call that does not return)" % e["id"])
+            rdir = os.path.join(os.environ.get("EGV_WORK") or ROOT, "replays", pid)
+            os.makedirs(rdir, exist_ok=True)
+            path = os.path.join(rdir, "hang_seed%d.json" % seed)
+            with open(path, "w") as f:
+                json.dump({"property": pid, "tier": tier, "seed": seed, "desc": h.get("desc"), "verdicts": [v]}, f, indent=1)
+            log("VIOLATION property=%s replay=%s codes=library_call_did_not_return" % (pid, path))
+            log("  a library call of this case %s: desc=%s" % (h.get("why"), json.dumps(h.get("desc"))[:400]))
+            return 1
         if p.returncode != 0:
             raise ToolError("harness %s failed (rc=%d):\n%s" % (P["bin"], p.returncode, p.stdout.decode("utf-8", "replace")[-3000:]))
         with open(os.path.join(out, "summary.json")) as f:
